@@ -291,3 +291,31 @@ Definition appended (rounds : list (nat * nat)) : nat := fold_right (fun r a => 
 
 (* does the client continue from the answer's next request after an empty answer? (true = the code) *)
 Definition code_select_advances : bool := true.
+
+(* ------------------------------------------------------------------ (D) a reader over no partition *)
+
+(* The wait loop of Querier.Query / ServerQuerier.query:
+     for limit > 0 && err == nil { _, _, err = cur.Get; ...; if err == io.EOF && nothing read && WaitTimeout > 0 {
+         err = cur.WaitNewData(ctx with the time-out); if err != nil { err = nil; break } } }
+   on the cursor over no partitions (pkg/cursor/null.go emptyCursor; the source expression matches nothing): Get
+   answers io.EOF every time. WaitNewData has nothing to wait on: it returns when the context is done, with its error
+   (waits_for_ctx = true, the code) -- the variant that answers nil at once is false.
+   The loop is run with fuel; the result is the number of rounds after which it is left (None: not within the fuel).
+   `timeout_round k`: the context of the k-th WaitNewData is done by the time it returns (with waits_for_ctx every
+   one is, by definition of waiting for it). *)
+Fixpoint empty_wait_loop (waits_for_ctx : bool) (fuel : nat) : option nat :=
+  match fuel with
+  | O => None
+  | S f =>
+      (* Get = io.EOF, nothing read: WaitNewData *)
+      if waits_for_ctx then Some 1                   (* ctx.Err() <> nil: err = nil; break -- the empty answer at the time-out *)
+      else option_map S (empty_wait_loop waits_for_ctx f)   (* nil: err = nil, the loop goes on with the next Get *)
+  end.
+
+(* the continuation request of the answer: the state of the empty cursor keeps the query (keeps_query = true, the code),
+   so the reader's next request is the same query from the beginning -- in part (C) this is `SAt 0` for a log that had
+   no records, the n = 0 instance of sel_run; the variant with an empty state has no query to continue with *)
+Definition empty_continuation {Q : Type} (keeps_query : bool) (q : Q) : option Q := if keeps_query then Some q else None.
+
+Definition code_empty_waits_for_ctx : bool := true.
+Definition code_empty_keeps_query : bool := true.
